@@ -725,6 +725,7 @@ class TorControlProtocol(LineOnlyReceiver):
 
         outstanding = [self.command] + self.commands if self.command else self.commands
         self.command = None
+        self.commands = []
         self.defer = None
         for d, cmd, cmd_arg in outstanding:
             if not d.called:
@@ -763,12 +764,13 @@ class TorControlProtocol(LineOnlyReceiver):
         if self.command:
             return
 
-        if len(self.commands):
+        while len(self.commands):
             self.command = self.commands.pop(0)
             (d, cmd, cmd_arg) = self.command
 
             if self._when_disconnected.already_fired(d):
-                return
+                self.command = None
+                continue
 
             self.defer = d
 
@@ -778,6 +780,7 @@ class TorControlProtocol(LineOnlyReceiver):
             data = cmd + b'\r\n'
             txtorlog.msg("cmd: {}".format(data.strip()))
             self.transport.write(data)
+            return
 
     def _auth_failed(self, fail):
         """
